@@ -27,51 +27,89 @@ type Recorder struct {
 	recs   []Rec
 	closed bool
 	paused bool
+	parked bool
+	wake   chan struct{}
 	done   chan struct{}
 	onEv   func(gomavlib.Event)
 }
 
 // StartRecorder starts consuming. onEvent (optional) runs in the consumer goroutine for each event.
 func StartRecorder(n *gomavlib.Node, p Pacing, onEvent func(gomavlib.Event)) *Recorder {
-	r := &Recorder{done: make(chan struct{}), onEv: onEvent}
+	r := &Recorder{done: make(chan struct{}), onEv: onEvent, wake: make(chan struct{}, 1)}
 	r.cond = sync.NewCond(&r.mu)
+	events := n.Events()
 	go func() {
 		defer close(r.done)
 		k := 0
-		for ev := range n.Events() {
+		for {
+			// a paused consumer does not receive at all: events stay undelivered from the node's point of view
 			r.mu.Lock()
 			for r.paused {
+				r.parked = true
+				r.cond.Broadcast()
 				r.cond.Wait()
 			}
-			r.recs = append(r.recs, Rec{time.Now(), ev})
+			r.parked = false
 			r.mu.Unlock()
-			r.cond.Broadcast()
-			if r.onEv != nil {
-				r.onEv(ev)
-			}
-			k++
-			switch p.Kind {
-			case "sleep":
-				time.Sleep(p.Sleep)
-			case "bursty":
-				if p.Burst > 0 && k%p.Burst == 0 {
+			select {
+			case <-r.wake:
+				continue
+			case ev, ok := <-events:
+				if !ok {
+					r.mu.Lock()
+					r.closed = true
+					r.mu.Unlock()
+					r.cond.Broadcast()
+					return
+				}
+				r.mu.Lock()
+				r.recs = append(r.recs, Rec{time.Now(), ev})
+				r.mu.Unlock()
+				r.cond.Broadcast()
+				if r.onEv != nil {
+					r.onEv(ev)
+				}
+				k++
+				switch p.Kind {
+				case "sleep":
 					time.Sleep(p.Sleep)
+				case "bursty":
+					if p.Burst > 0 && k%p.Burst == 0 {
+						time.Sleep(p.Sleep)
+					}
 				}
 			}
 		}
-		r.mu.Lock()
-		r.closed = true
-		r.mu.Unlock()
-		r.cond.Broadcast()
 	}()
 	return r
 }
 
-// Pause makes the consumer stop taking further events (after the one in hand).
+// Pause makes the consumer stop receiving events (it may take the one it is just receiving). It may be
+// called from the onEvent callback. Use WaitPaused to be sure that nothing more is taken.
 func (r *Recorder) Pause() {
 	r.mu.Lock()
 	r.paused = true
 	r.mu.Unlock()
+	select {
+	case r.wake <- struct{}{}:
+	default:
+	}
+}
+
+// WaitPaused waits until the consumer goroutine is parked (not receiving).
+func (r *Recorder) WaitPaused(timeout time.Duration) bool {
+	deadline := time.Now().Add(timeout)
+	timer := time.AfterFunc(timeout, func() { r.cond.Broadcast() })
+	defer timer.Stop()
+	r.mu.Lock()
+	defer r.mu.Unlock()
+	for !r.parked {
+		if time.Now().After(deadline) {
+			return false
+		}
+		r.cond.Wait()
+	}
+	return true
 }
 
 // Resume lets the consumer continue.
